@@ -755,6 +755,10 @@ func (in *Interp) visitInstr(fr *frame, instr ssa.Instruction) int {
 		idx := fr.get(instr.Index).(*Term)
 		switch x := x.(type) {
 		case Slice:
+			if !idx.IsConst() && len(x.A) > 8 && allConstScalars(x.A) {
+				fr.set(instr, in.symElemPtr(x.A, idx, isSigned(instr.Index.Type())))
+				break
+			}
 			i := in.indexCheck(idx, len(x.A), isSigned(instr.Index.Type()))
 			fr.set(instr, &x.A[i])
 		case *Cell:
@@ -762,6 +766,10 @@ func (in *Interp) visitInstr(fr *frame, instr ssa.Instruction) int {
 				panic(in.targetPanicStr("runtime error: invalid memory address or nil pointer dereference"))
 			}
 			arr := x.V.(Array)
+			if !idx.IsConst() && len(arr) > 8 && allConstScalars(arr) {
+				fr.set(instr, in.symElemPtr(arr, idx, isSigned(instr.Index.Type())))
+				break
+			}
 			i := in.indexCheck(idx, len(arr), isSigned(instr.Index.Type()))
 			fr.set(instr, &arr[i])
 		default:
@@ -809,6 +817,54 @@ func deref(t types.Type) types.Type {
 		return p.Elem()
 	}
 	panic("deref of non-pointer " + t.String())
+}
+
+// SymElemPtr is the address of an element of a table of constant scalars at a
+// symbolic index; it can only be loaded from (the load is an ite-chain term).
+type SymElemPtr struct {
+	Cells []Cell
+	Idx   *Term // 64-bit, known to be in range
+}
+
+func allConstScalars(cells []Cell) bool {
+	for i := range cells {
+		t, ok := cells[i].V.(*Term)
+		if !ok || !t.IsConst() {
+			return false
+		}
+	}
+	return true
+}
+
+func (in *Interp) symElemPtr(cells []Cell, idx *Term, signed bool) SymElemPtr {
+	idx = in.tf.Conv(idx, 64, signed)
+	inRange := in.tf.Cmp(OUlt, idx, in.tf.Const(64, uint64(len(cells))))
+	if !in.branch(inRange) {
+		panic(in.targetPanicStr(fmt.Sprintf("runtime error: index out of range [sym] with length %d", len(cells))))
+	}
+	return SymElemPtr{Cells: cells, Idx: idx}
+}
+
+// loadSymElem reads a constant table at a symbolic index: runs of equal values
+// become one range test each.
+func (in *Interp) loadSymElem(p SymElemPtr) Value {
+	f := in.tf
+	n := len(p.Cells)
+	// start from the last run and build ite(idx <= runEnd, val, rest) backwards
+	res := p.Cells[n-1].V.(*Term)
+	i := n - 1
+	for i >= 0 && p.Cells[i].V.(*Term).C == res.C {
+		i--
+	}
+	for i >= 0 {
+		val := p.Cells[i].V.(*Term)
+		end := i
+		for i >= 0 && p.Cells[i].V.(*Term).C == val.C {
+			i--
+		}
+		res = f.Ite(f.Cmp(OUle, p.Idx, f.Const(64, uint64(end))), val, res)
+	}
+	return res
 }
 
 func (in *Interp) asPtr(v Value) *Cell {
@@ -927,8 +983,7 @@ func (in *Interp) concInt(t *Term, signed bool) int64 {
 		panic(in.abort("internal", "symbolic int outside a path"))
 	}
 	for i := 0; i < 64; i++ {
-		ps.ensureModel(in)
-		c := t.Eval(ps.model, map[*Term]uint64{})
+		c := ps.candidate(in, t)
 		if in.branch(in.tf.Eq(t, in.tf.Const(t.W, c))) {
 			if signed {
 				return sext64(c, t.W)
